@@ -183,11 +183,17 @@ impl LogServerClient {
         data: sync::Arc<Vec<Vec<u8>>>,
         header: &[u8],
     ) -> Result<(), MonorailError> {
+        #[cfg(pnordahl_monorail_verif)]
+        crate::verif::point(&format!("stream.pre:{}", String::from_utf8_lossy(header).trim_end()));
         let mut guard = self.stream.lock().await;
         guard.write_all(header).await.map_err(MonorailError::from)?;
+        #[cfg(pnordahl_monorail_verif)]
+        crate::verif::point(&format!("stream.mid:{}", String::from_utf8_lossy(header).trim_end()));
         for v in data.iter() {
             guard.write_all(v).await.map_err(MonorailError::from)?;
         }
+        #[cfg(pnordahl_monorail_verif)]
+        crate::verif::point(&format!("stream.post:{}", String::from_utf8_lossy(header).trim_end()));
         Ok(())
     }
     #[instrument]
@@ -435,6 +441,11 @@ impl Compressor {
                     for mut enc in encoders {
                         trace!(thread_id = x, "Encoder finish");
                         enc.do_finish()?;
+                    }
+                    #[cfg(pnordahl_monorail_verif)]
+                    {
+                        drop(req_rx);
+                        crate::verif::point(&format!("compressor.gone:{}", x));
                     }
                     Ok::<(), MonorailError>(())
                 });
